@@ -170,8 +170,8 @@ def meta2Expr (f : Form) : Res (String × Option LitV) :=
   | .nv v => .ok (v.text, match v.tok with | .lit l => some l | _ => none)
   | .list v =>
     match v.tok with
-    | .lit l => .ok (v.text, some l)
-    | .ident _ | .path | .expr => .ok (v.text, v.exprLit)
+    -- (the list content is parsed as an expression: `-5`, which `Lit::parse` accepts as a literal, is a negation there)
+    | .lit _ | .ident _ | .path | .expr => .ok (v.text, v.exprLit)
     | _ => .diag .badValue
 
 def meta2Bound (f : Form) : Res Bound :=
